@@ -7,6 +7,11 @@ def main():
     import logging
     logging.disable(logging.CRITICAL)
     prop = sys.argv[1]
+    try:
+        import jax
+        jax.config.update('jax_enable_x64', True)  # the JAX classes are single precision otherwise; finite-difference oracles need doubles
+    except Exception:
+        pass
     mod = importlib.import_module(prop.lower())
     rc = mod.main(sys.argv[2:])
     sys.exit(rc)
